@@ -17,6 +17,7 @@ GUARD = "AGENTD_SQUASHFS_TOOLS_NG_VERIF"
 WRAP = """malloc calloc realloc strdup strndup mmap
 read write pread pwrite open openat close dup lseek ftruncate fstat fstatat fsync unlink mkdir symlink
 mknod fchownat fchmodat utimensat lsetxattr lgetxattr llistxattr readlinkat chdir
+setxattr chmod chown lchown truncate rename link unlinkat mkdirat symlinkat rmdir
 opendir fdopendir readdir closedir
 pthread_create pthread_join pthread_mutex_init pthread_mutex_destroy pthread_mutex_lock
 pthread_mutex_unlock pthread_cond_init pthread_cond_destroy pthread_cond_wait pthread_cond_signal
